@@ -115,6 +115,7 @@ package verifier
 //@ func (c *VerifierChip) Verify(proof variables.Proof, publicInputs []gl.Variable, verifierData variables.VerifierOnlyCircuitData)
 //@   props C01
 //@   circuit sound-only
+//@   flag own-props-only
 //@   calls verifier.VerifierChip.rangeCheckProof verifier.VerifierChip.GetPublicInputsHash verifier.VerifierChip.GetChallenges plonk.PlonkChip.Verify fri.Chip.GetInstance fri.Chip.ToOpenings fri.Chip.VerifyFriProof
 //@   ghost pih poseidon.GoldilocksHashOut = callresult("verifier.VerifierChip.GetPublicInputsHash", 0)
 //@   ghost reduced []gl.Variable = callghost("verifier.VerifierChip.GetPublicInputsHash", 0, "reduced")
